@@ -13,67 +13,146 @@ NOT_DECIDED = ['numerical equality with the true maxima', 'PEAK chunk byte layou
 ASSUMPTIONS = ['requests are whole frames (enforced by the public wrappers: C05 WRAPPER)']
 
 
-def updater_facts(f):
-    """facts of a peak updater, independent of spelling: loops may be for or while, psf->sf.channels may have been copied into a local,
-    &psf->peak_info->peaks [chan] may have been taken into a pointer, fabs (buffer [k]) may have a temporary"""
+def updater_facts(f, prog=None):
+    """facts of a peak updater, independent of spelling and of where the scan lives: loops may be for or while, psf->sf.channels may have been copied into a
+    local, &psf->peak_info->peaks [chan] may have been taken into a pointer, fabs (buffer [k]) may have a temporary, and the per-channel scan may have been
+    moved into a static helper of the same file.  The facts are stated over ROLES (channel index, scan index, running maximum, position of the maximum,
+    count / frame offset parameters) and printed with the canonical names chan, k, fmaxval, position, count, indx."""
     import re as _re
     from engine.util import local_defs
     LOOPS = ('ForStmt', 'WhileStmt', 'DoStmt')
-    params = {p_['n'] for p_ in f.params}
-    al = assigned_lvalues(f)
-    # names that only stand for something else: const copies of a field, pure temporaries, pointers to an element
-    subst = {}
-    for nm, ds in local_defs(f).items():
-        if nm in params or len(ds) != 1 or ds[0] is None:
-            continue
-        d = ds[0] if isinstance(ds[0], dict) else f.N[ds[0]]
-        du = f.unwrap(d)
-        if du.get('k') == 'MemberExpr' and sum(1 for lv, a, r in al if lv == nm) == 0:
-            subst[nm] = f.s(du)
-        elif du.get('k') == 'UnaryOperator' and du.get('op') == '&':
-            subst[nm + '->'] = f.s(f.unwrap(f.N[du['kids'][0]])) + '.'
-        elif du.get('k') == 'CallExpr' and du.get('callee') in ('fabs', 'fabsf') and sum(1 for lv, a, r in al if lv == nm) <= 1:
-            subst[nm] = f.s(du)
 
-    def S(x):
-        t = f.s(x) if not isinstance(x, str) else x
-        for k_, v_ in subst.items():
-            if k_.endswith('->'):
-                t = t.replace(k_, v_)
-            else:
-                t = _re.sub(r'(?<![\w>.])%s(?![\w])' % _re.escape(k_), v_, t)
-        return t
+    def make_S(g, extra):
+        params = {p_['n'] for p_ in g.params}
+        al = assigned_lvalues(g)
+        subst = dict(extra)
+        for nm, ds in local_defs(g).items():
+            if nm in params or len(ds) != 1 or ds[0] is None:
+                continue
+            d = ds[0] if isinstance(ds[0], dict) else g.N[ds[0]]
+            du = g.unwrap(d)
+            if du.get('k') == 'MemberExpr' and sum(1 for lv, a, r in al if lv == nm) == 0:
+                subst[nm] = g.s(du)
+            elif du.get('k') == 'UnaryOperator' and du.get('op') == '&':
+                subst[nm + '->'] = g.s(g.unwrap(g.N[du['kids'][0]])) + '.'
+            elif du.get('k') == 'CallExpr' and du.get('callee') in ('fabs', 'fabsf') and sum(1 for lv, a, r in al if lv == nm) <= 1:
+                subst[nm] = g.s(du)
+
+        def S(x, rounds=2):
+            t = g.s(x) if not isinstance(x, str) else x
+            for _ in range(rounds):
+                for k_, v_ in subst.items():
+                    if k_.endswith('->'):
+                        t = t.replace(k_, v_)
+                    else:
+                        t = _re.sub(r'(?<![\w>.])%s(?![\w])' % _re.escape(k_), v_.replace('\\', '\\\\'), t)
+            return t
+        return S, subst
+
     facts = {}
     loops = [n for n in f.walk() if n['k'] in LOOPS]
     facts['n_for'] = len(loops)
-    if len(loops) >= 2:
-        outer = loops[0]
-        inner = [n for n in f.walk(f.N[outer['body']]) if n['k'] in LOOPS]
-        inner = inner[0] if inner else None
-        facts['outer_cond'] = S(outer['cond']) if 'cond' in outer else None
-        if inner is not None:
-            facts['inner_cond'] = S(inner['cond']) if 'cond' in inner else None
-            # start and step of the scan index: the for-init / for-inc, or the assignments to the index variable before / inside a while
-            idx = None
-            cn = f.unwrap(f.N[inner['cond']]) if 'cond' in inner else None
-            if cn is not None and cn.get('k') == 'BinaryOperator':
-                idx = f.s(f.unwrap(f.N[cn['kids'][0]]))
-            starts = [S(a) for lv, a, r in assigned_lvalues(f, f.N[outer['body']]) if lv == idx and a.get('op') == '=' and not f.within(a, f.N[inner['body']])]
-            steps = [S(a) for lv, a, r in assigned_lvalues(f, inner) if lv == idx and a.get('op') != '=']
-            facts['inner_init'] = starts[0] if len(starts) == 1 else starts
-            facts['inner_inc'] = steps[0] if len(steps) == 1 else steps
-            ifs = [n for n in f.walk(inner['body']) if n['k'] == 'IfStmt']
-            facts['scan_cmp'] = f.N[ifs[0]['cond']].get('op') if ifs else None
-            facts['scan_cmp_s'] = S(ifs[0]['cond']) if ifs else None
-    upd = [n for n in f.walk() if n['k'] == 'IfStmt' and 'peak_info->peaks' in S(n['cond'])]
+    if not loops:
+        return facts
+    outer = loops[0]
+    ocn = f.unwrap(f.N[outer['cond']]) if 'cond' in outer else {}
+    chan = f.s(f.unwrap(f.N[ocn['kids'][0]])) if ocn.get('k') == 'BinaryOperator' else None
+    roles_f = {}
+    if chan:
+        roles_f[chan] = 'chan'
+    if len(f.params) >= 4:
+        roles_f[f.params[2]['n']] = 'count'
+        roles_f[f.params[3]['n']] = 'indx'
+        roles_f[f.params[1]['n']] = 'buffer'
+    # where the scan lives: a second loop in f, or the loop of a static helper called from the channel loop
+    g, hcall, inner = f, None, None
+    inn = [n for n in f.walk(f.N[outer['body']]) if n['k'] in LOOPS]
+    if inn:
+        inner = inn[0]
+    elif prog is not None:
+        for c_ in f.calls(root=f.N[outer['body']]):
+            for h in prog.fns.get(c_.get('callee') or '', []):
+                hl = [n for n in h.walk() if n['k'] in LOOPS]
+                if h.static and h.file == f.file and hl:
+                    g, hcall, inner = h, c_, hl[0]
+    Sf, _ = make_S(f, roles_f)
+    facts['outer_cond'] = Sf(outer['cond']) if 'cond' in outer else None
+    maxvar_f = posvar_f = None
+    if inner is not None:
+        roles_g = dict(roles_f) if g is f else {}
+        outmap = {}
+        if g is not f:
+            for p_, a_ in zip(g.params, f.args(hcall)):
+                au = f.unwrap(a_ if isinstance(a_, dict) else f.N[a_])
+                if au.get('k') == 'UnaryOperator' and au.get('op') == '&':
+                    outmap[p_['n']] = f.s(f.unwrap(f.N[au['kids'][0]]))      # out-parameter: *p in the helper is this variable of the caller
+                else:
+                    roles_g[p_['n']] = Sf(au)
+        icn = g.unwrap(g.N[inner['cond']]) if 'cond' in inner else {}
+        k = g.s(g.unwrap(g.N[icn['kids'][0]])) if icn.get('k') == 'BinaryOperator' else None
+        if k:
+            roles_g[k] = 'k'
+        ifs = [n for n in g.walk(inner['body']) if n['k'] == 'IfStmt']
+        maxvar_g = posvar_g = None
+        if ifs:
+            cn = g.unwrap(g.N[ifs[0]['cond']])
+            if cn.get('k') == 'BinaryOperator':
+                sides = [g.unwrap(g.N[x]) for x in cn['kids']]
+                mv = [x for x in sides if x.get('k') == 'DeclRefExpr']
+                if mv:
+                    maxvar_g = mv[0]['n']
+            for lv, n_, r_ in assigned_lvalues(g, ifs[0]['then']):
+                if r_ is not None and g.s(g.unwrap(r_)) == k:
+                    posvar_g = lv
+        if maxvar_g:
+            roles_g[maxvar_g] = 'fmaxval'
+        if posvar_g:
+            roles_g[posvar_g] = 'position'
+        Sg, _ = make_S(g, roles_g)
+        facts['inner_cond'] = Sg(inner['cond']) if 'cond' in inner else None
+        body_root = g.N[outer['body']] if g is f else g.N[g.body]
+        starts = [Sg(a) for lv, a, r in assigned_lvalues(g, body_root) if lv == k and a.get('op') == '=' and not g.within(a, g.N[inner['body']])]
+        steps = [Sg(a) for lv, a, r in assigned_lvalues(g, inner) if lv == k and a.get('op') != '=']
+        facts['inner_init'] = starts[0] if len(starts) == 1 else starts
+        facts['inner_inc'] = steps[0] if len(steps) == 1 else steps
+        facts['scan_cmp'] = g.N[ifs[0]['cond']].get('op') if ifs else None
+        facts['scan_cmp_s'] = Sg(ifs[0]['cond']) if ifs else None
+        if g is f:
+            maxvar_f, posvar_f = maxvar_g, posvar_g
+        else:
+            # the helper hands the maximum back as its result and the position through an out-parameter (or the other way round)
+            hr = [g.s(g.unwrap(g.N[r_['kids'][0]])) for r_ in g.cfg.returns() if r_.get('kids')]
+            par = f.N[f.parent[hcall['id']]]
+            while par['k'] in ('ImplicitCastExpr', 'ParenExpr', 'CStyleCastExpr'):
+                par = f.N[f.parent[par['id']]]
+            res_f = f.s(par['kids'][0]) if par['k'] == 'BinaryOperator' and par.get('op') == '=' else (par.get('n') if par['k'] == 'VarDecl' else None)
+            outs = {}
+            for lv, n_, r_ in assigned_lvalues(g):
+                if lv.startswith('*') and r_ is not None:
+                    outs[lv.lstrip('*(').rstrip(')')] = g.s(g.unwrap(r_))
+            if hr and all(x == maxvar_g for x in hr):
+                maxvar_f = res_f
+            elif hr and all(x == posvar_g for x in hr):
+                posvar_f = res_f
+            for pn, val in outs.items():
+                if val == maxvar_g and pn in outmap:
+                    maxvar_f = outmap[pn]
+                if val == posvar_g and pn in outmap:
+                    posvar_f = outmap[pn]
+    if maxvar_f:
+        roles_f[maxvar_f] = 'fmaxval'
+    if posvar_f:
+        roles_f[posvar_f] = 'position'
+    Sf, _ = make_S(f, roles_f)
+    upd = [n for n in f.walk() if n['k'] == 'IfStmt' and 'peak_info->peaks' in Sf(n['cond'])]
     if upd:
         facts['update_cmp'] = f.N[upd[0]['cond']].get('op')
-        facts['update_cmp_s'] = S(upd[0]['cond'])
+        facts['update_cmp_s'] = Sf(upd[0]['cond'])
         for lv, n, rhs in assigned_lvalues(f, upd[0]['then']):
-            if S(lv).endswith('.position'):
-                facts['position'] = S(rhs)
-            if S(lv).endswith('.value'):
-                facts['value'] = S(rhs)
+            if Sf(lv).endswith('.position'):
+                facts['position'] = Sf(rhs)
+            if Sf(lv).endswith('.value'):
+                facts['value'] = Sf(rhs)
     return facts
 
 
@@ -83,7 +162,7 @@ def peak_facts(ctx, prog):
     fu = {}
     for name, file in (('float32_peak_update', 'float32.c'), ('double64_peak_update', 'double64.c')):
         f = prog.fn(name, file)
-        ft = updater_facts(f)
+        ft = updater_facts(f, prog)
         fu[name] = ft
         exp = {'outer_cond': '(chan < psf->sf.channels)', 'inner_init': '(k = chan)', 'inner_cond': '(k < count)', 'inner_inc': '(k += psf->sf.channels)',
                'scan_cmp': '<', 'update_cmp': '>', 'position': '((psf->write_current + indx) + (position / psf->sf.channels))', 'value': 'fmaxval'}
